@@ -58,6 +58,7 @@ pub open spec fn ka_service(old_ev: Seq<Ev>, new_ev: Seq<Ev>, locale: Option<Seq
 
 /// C07 trace predicate: a Keep Alive is only ever sent on a timer tick and only while none is unanswered; the timeout
 /// Disconnect only on a tick while one is unanswered
+#[verifier::opaque]
 pub open spec fn ka_wf(ev: Seq<Ev>) -> bool {
     forall |i: int| 0 <= i < ev.len() ==> (
         ((#[trigger] ev[i]) matches Ev::Send(Sent::KeepAlive { .. }) ==> i >= 1 && ev[i - 1] is Tick && outstanding(ev.subrange(0, i)) is None)
@@ -67,6 +68,7 @@ pub proof fn lemma_ka_wf_push_other(ev: Seq<Ev>, e: Ev)
     requires ka_wf(ev), !(e matches Ev::Send(Sent::KeepAlive { .. }))
     ensures ka_wf(ev.push(e))
 {
+    reveal(ka_wf);
     let n = ev.push(e);
     assert forall |i: int| 0 <= i < n.len() implies ((#[trigger] n[i]) matches Ev::Send(Sent::KeepAlive { .. }) ==> i >= 1 && n[i - 1] is Tick && outstanding(n.subrange(0, i)) is None) by {
         if i < ev.len() { assert(n[i] == ev[i]); assert(n.subrange(0, i) =~= ev.subrange(0, i)); if i >= 1 { assert(n[i - 1] == ev[i - 1]); } }
@@ -76,6 +78,7 @@ pub proof fn lemma_ka_wf_push_keepalive(ev: Seq<Ev>, id: u64)
     requires ka_wf(ev), ev.len() >= 1, ev.last() is Tick, outstanding(ev) is None
     ensures ka_wf(ev.push(Ev::Send(Sent::KeepAlive { id })))
 {
+    reveal(ka_wf);
     let e = Ev::Send(Sent::KeepAlive { id });
     let n = ev.push(e);
     assert forall |i: int| 0 <= i < n.len() implies ((#[trigger] n[i]) matches Ev::Send(Sent::KeepAlive { .. }) ==> i >= 1 && n[i - 1] is Tick && outstanding(n.subrange(0, i)) is None) by {
@@ -83,6 +86,10 @@ pub proof fn lemma_ka_wf_push_keepalive(ev: Seq<Ev>, id: u64)
         else { assert(n.subrange(0, i) =~= ev); assert(n[i - 1] == ev[ev.len() - 1]); }
     }
 }
+pub proof fn lemma_ka_wf_empty(ev: Seq<Ev>)
+    requires ev.len() == 0
+    ensures ka_wf(ev)
+{ reveal(ka_wf); }
 /// `pushed` form of the two lemmas (for callers that only know the pointwise relation)
 pub proof fn lemma_ka_wf_pushed_other(old_ev: Seq<Ev>, new_ev: Seq<Ev>, e: Ev)
     requires ka_wf(old_ev), pushed(old_ev, new_ev, e), !(e matches Ev::Send(Sent::KeepAlive { .. }))
